@@ -2,6 +2,7 @@ import AsmjitVerif.Model.CallConv
 import AsmjitVerif.Spec.ABI
 import AsmjitVerif.Model.ArgShuffle
 import AsmjitVerif.Spec.Machine
+import AsmjitVerif.Lemmas.C06ShuffleTop
 import Driver.Common
 open AsmjitVerif.CallConv
 namespace Driver.C06
@@ -199,6 +200,23 @@ def shStep (ws : List String) : String :=
     | _ => "bad-op sep"
   | none => "bad-op sig"
 
+/-- `wf0 <sh line> # <frame facts>`: runtime guard of the hypothesis of `shuffle_correct_regs` -/
+def wfStep (ws : List String) : String :=
+  match parseSh ws with
+  | some l =>
+    match l.rest with
+    | "#" :: fr =>
+      match parseFrame fr, initFuncDetail l.env l.sig with
+      | some f, .ok (_, d) =>
+        if l.argsSa != 255 then "skip sa" else
+        match AsmjitVerif.C06S.initialWfCheck (cfgOf l) f (valsOf d l.dsts) with
+        | none => "skip"
+        | some true => "good"
+        | some false => "BAD initial-context-not-WF"
+      | _, _ => "skip"
+    | _ => "bad-op sep"
+  | none => "bad-op sig"
+
 /-- `monsh <sh line> | <status...> sa=<id>.<da>.<off> fr=... | <instructions>` -/
 def monStep (ws : List String) : String :=
   match parseSh ws with
@@ -247,6 +265,7 @@ def step (_ : Unit) (line : String) : Unit × String :=
   | "monfd" :: rest => ((), monFd rest)
   | "monsh" :: rest => ((), Shuffle.monStep rest)
   | "shm" :: rest => ((), Shuffle.shStep rest)
+  | "wf0" :: rest => ((), Shuffle.wfStep rest)
   | _ => ((), "bad-op")
 
 def main : IO Unit := do
